@@ -328,3 +328,26 @@ def field_stores(fn, field):
             if st["k"] == "=" and st["p"][1] and st["p"][1][-1][0] == "f" and st["p"][1][-1][2] == field:
                 out.append((bi, st, rvalue_agg(fn, st["r"])))
     return out
+
+
+def bytes_match_table(fn, prog, max_paths=4000):
+    """For `match bytes { b"lit" => X, .. }` functions (lowered to a length test plus per-byte switches):
+    list of (literal string, value description) for every fully matched literal."""
+    out = []
+    for conds, val in const_table(fn, prog, max_paths=max_paths):
+        bs = []
+        good = True
+        for subj, lab in conds:
+            if isinstance(subj, str) and re.match(r"(Eq|Ne|Le|Lt|Ge|Gt)\(", subj):
+                continue
+            if isinstance(lab, int):
+                bs.append(lab)
+            elif lab == "otherwise":
+                good = False
+        if good and bs and all(0 <= b < 256 for b in bs):
+            try:
+                lit = bytes(bs).decode()
+            except UnicodeDecodeError:
+                continue
+            out.append((lit, (val or {}).get("desc", str(val))))
+    return out
